@@ -19,7 +19,7 @@ RULE = (
     "history = sequence (<=12..16 steps, Hypothesis RuleBasedStateMachine) of create / select / partition+concatenate / "
     "pickle round trip / to_dict(flat|nested)->from_dict on a pool of (real sample set, plain-array reference model) pairs; "
     "class in {BaseSamples, Samples, SMCSamples} x namespace x width x optional-field subset; selections: int, negative int, "
-    "slice with step, boolean mask, integer array with repeats, empty selection. After every operation every per-sample field "
+    "slice with step, boolean mask, integer array with repeats, full-length permutation / bootstrap index / reversal, empty selection. After every operation every per-sample field "
     "of the real object (x, log L, log pi, log q, and log_w / weights for weighted sets) must equal the same selection of the "
     "model bitwise, with parameters / namespace / width unchanged, carried log_evidence / log_evidence_error (not recomputed) "
     "and beta for SMCSamples. Non-trivial = a history with a non-contiguous selection followed by >=1 further operation."
@@ -116,6 +116,10 @@ def _index(spec, n):
     if k == "array":
         g = np.random.default_rng(spec["seed"])
         return g.integers(0, n, size=spec["m"])
+    if k == "perm":  # every row exactly once, in another order: the selection has the parent's length
+        return np.random.default_rng(spec["seed"]).permutation(n)
+    if k == "boot":  # as many rows as the parent, with repeats
+        return np.random.default_rng(spec["seed"]).integers(0, n, size=n)
     if k == "empty":
         return slice(0, 0)
     raise ValueError(k)
@@ -216,7 +220,7 @@ def apply(state, op, ctx, case):
         sel = real[ridx]
         msel = _select_model(model, idx)
         _agree(sel, msel, ctx, case, "select")
-        if op["idx"]["kind"] in ("mask", "array") or (op["idx"]["kind"] == "slice" and op["idx"]["s"] not in (None, 1)):
+        if op["idx"]["kind"] in ("mask", "array", "perm", "boot") or (op["idx"]["kind"] == "slice" and op["idx"]["s"] not in (None, 1)):
             if state["noncontig_at"] is None:
                 state["noncontig_at"] = state["n_ops"]
         if msel["x"].ndim == 2:
@@ -312,6 +316,8 @@ _idx = st.one_of(
     st.fixed_dictionaries({"kind": st.just("mask"), "seed": st.integers(0, 2**31 - 1), "p": st.sampled_from([0.2, 0.5, 0.9]),
                            "allow_empty": st.booleans(), "as_list": st.booleans()}),
     st.fixed_dictionaries({"kind": st.just("array"), "seed": st.integers(0, 2**31 - 1), "m": st.integers(1, 30), "as_list": st.booleans()}),
+    st.fixed_dictionaries({"kind": st.sampled_from(["perm", "boot"]), "seed": st.integers(0, 2**31 - 1), "as_list": st.booleans()}),
+    st.fixed_dictionaries({"kind": st.just("slice"), "a": st.none(), "b": st.none(), "s": st.just(-1)}),
     st.fixed_dictionaries({"kind": st.just("empty")}),
 )
 
